@@ -2226,6 +2226,7 @@ DEVIATIONS = [
     ("MC_Lifecycle", "MC_Lifecycle_q1", {"FlushEntry": "FALSE"}, ("FlushedAtUser",)),
     ("MC_Lifecycle", "MC_Lifecycle_q1", {"UnmapOnDrop": "FALSE"}, ("NoLeak",)),
     ("MC_Lifecycle", "MC_Lifecycle_rg", {"SavedFrom": '"first"'}, ("OnlyNamed", "Restored")),
+    ("MC_Lifecycle", "MC_Lifecycle_rg", {"SavedFrom": '"ptr"'}, ("OnlyNamed", "Restored", "NoWildAtUser")),
     ("MC_Lifecycle", "MC_Lifecycle_fr", {"AllocAt": '"fixed"'}, ("ForeignIntact",)),
     ("MC_Lifecycle", "MC_Steps_q", {"VerifierStep": '"last"'}, ("ResetBeforeLive",)),
     ("MC_Lifecycle", "MC_Lifecycle_rf", {"LockByHand": "TRUE"}, ("IdleClean", "HolderIsLock", "Mutex")),
